@@ -7,7 +7,7 @@ import numpy as np
 
 from . import genomes as G
 
-STEMS = ['sampleA', 'iso_2', 'run-3', 'X4', 'my sample5', 's6_contigs', 'q7', 'Genome8']
+STEMS = ['sampleA', 'iso_2', 'run-3', 'X4', 'my sample5', 's6_contigs', 'q7', 'Genome8', 'souche_\u00e99']     # one non-ASCII name
 # names without any extension whose tail merely looks like one: the label is the name itself
 BARE_STEMS = ['MRSA_alfa', 'plate3_bigz', 'run12_ffn', 'ctg_fna', 'wgs_fasta']
 
